@@ -1,5 +1,5 @@
 CONSTANTS H = 1 W = 5 FixMarks = TRUE FixWide = TRUE AllowAmbiguous = FALSE
-Alphabet <- AImg
+Alphabet <- AFull
 INIT Init
 NEXT Next
 INVARIANT Shown
